@@ -13,6 +13,7 @@ def parseAct (tok : String) : Option Act :=
   | "E" => some (.die .exit0)
   | "U" => some (.die .uexit0)
   | "Z" => some (.die .overrun)
+  | "ZD" => some (.die .overrun)
   | _ =>
     if tok.startsWith "K" then (tok.drop 1).toNat?.map (fun n => .die (.signal n))
     else none
